@@ -13,8 +13,8 @@ from typing import Any
 from vf import proggen
 
 
-def gen_program(rng, nobj: int = 1, finite: bool = False, max_reports: int = 5, fixed_args: bool = False) -> dict:
-    gen = proggen.Gen(rng, ["p", "q", "r", "s", "t"], finite=finite, max_children=3, fixed_args=fixed_args)
+def gen_program(rng, nobj: int = 1, finite: bool = False, max_reports: int = 5, fixed_args: bool = False, nan_choice: bool = False) -> dict:
+    gen = proggen.Gen(rng, ["p", "q", "r", "s", "t"], finite=finite, max_children=3, fixed_args=fixed_args, nan_choice=nan_choice)
     tree = None
     for _ in range(30):
         tree = gen.tree(rng.randint(1, 3))
